@@ -449,6 +449,72 @@ def attribute_aliases(modules, canon):
     return out
 
 
+class _Normalise(ast.NodeTransformer):
+    """Spellings that mean the same are brought to one form before anything
+    reads the tree (the interpreter and the syntax-reading rules alike):
+
+    * `with contextlib.suppress(E): BODY`  is  `try: BODY / except E: pass`;
+    * `try: X = D[k] / except KeyError: H / else: E` - the try body one
+      statement whose value is exactly the subscript - is `if k in D: X =
+      D[k]; E / else: H` (look-before-you-leap and EAFP on a mapping without
+      `__missing__`; every table this package subscripts that way is a plain
+      dict)."""
+
+    def visit_With(self, node):
+        self.generic_visit(node)
+        if len(node.items) == 1 and node.items[0].optional_vars is None:
+            c = node.items[0].context_expr
+            if isinstance(c, ast.Call) and not c.keywords and c.args and (
+                    (isinstance(c.func, ast.Attribute) and
+                     c.func.attr == 'suppress') or
+                    (isinstance(c.func, ast.Name) and
+                     c.func.id == 'suppress')):
+                typ = c.args[0] if len(c.args) == 1 else ast.Tuple(
+                    elts=list(c.args), ctx=ast.Load())
+                h = ast.ExceptHandler(type=typ, name=None,
+                                      body=[ast.Pass()])
+                t = ast.Try(body=node.body, handlers=[h], orelse=[],
+                            finalbody=[])
+                return ast.copy_location(t, node)
+        return node
+
+    def visit_Try(self, node):
+        self.generic_visit(node)
+        if node.finalbody or len(node.handlers) != 1 or len(node.body) != 1:
+            return node
+        h = node.handlers[0]
+        if not (isinstance(h.type, ast.Name) and h.type.id == 'KeyError'
+                and h.name is None):
+            return node
+        st = node.body[0]
+        val = st.value if isinstance(st, (ast.Assign, ast.Return, ast.Expr)) \
+            else None
+        if not (isinstance(val, ast.Subscript) and
+                isinstance(val.ctx, ast.Load) and
+                not isinstance(val.slice, ast.Slice)):
+            return node
+        if isinstance(st, ast.Assign) and not all(
+                isinstance(t, ast.Name) for t in st.targets):
+            return node
+        # the key and the table are evaluated once more by the test: only
+        # when they are plain names / attribute chains / constants
+        def plain(e):
+            return isinstance(e, (ast.Name, ast.Constant)) or (
+                isinstance(e, ast.Attribute) and plain(e.value))
+        if not (plain(val.value) and plain(val.slice)):
+            return node
+        test = ast.Compare(left=val.slice, ops=[ast.In()],
+                           comparators=[val.value])
+        handler_body = h.body
+        if len(handler_body) == 1 and isinstance(handler_body[0], ast.Pass) \
+                and not node.orelse:
+            new = ast.If(test=test, body=[st], orelse=[])
+        else:
+            new = ast.If(test=test, body=[st] + list(node.orelse),
+                         orelse=handler_body)
+        return ast.copy_location(new, node)
+
+
 class Module:
     def __init__(self, name, path, relpath, src):
         self.name = name
@@ -460,6 +526,8 @@ class Module:
             self.tree = ast.parse(src, filename=path)
         except SyntaxError as e:
             raise AnalysisError('%s does not parse: %s' % (relpath, e))
+        self.tree = _Normalise().visit(self.tree)
+        ast.fix_missing_locations(self.tree)
         self.funcs = {}      # top-level name -> FuncInfo
         self.classes = {}    # name -> ClassInfo
         self.assigns = {}    # module-level name -> [value nodes] (in order)
